@@ -1,5 +1,7 @@
 //! The type universe: every concrete type the monitors exercise, one `TypeOps` each.
 
+pub mod derived;
+
 use crate::derived::*;
 use bitvec::prelude::{BitBox, BitVec, Lsb0, Msb0};
 use bytes::Bytes;
